@@ -366,6 +366,9 @@ JudgeCreateFarm(s, h, e, p) ==
                                                               \* epochs beyond 10^9 are projected to 10^9 (32-bit TLC integers): the rate of such a farm is taken as observed
                                                               rate |-> IF end >= 1000000000 THEN Farms(p)[nid].rate ELSE F!EmissionRate(e.amt, start, end),
                                                               start |-> start, end |-> end]),
+       \* the authorisation view of the same rule: a creation by anybody closes only farms that have expired (closing a live farm
+       \* takes its owner or the contract owner)
+       C15_creation_closes_only_expired_farms |-> G(good, \A f \in DOMAIN Farms(s) \ DOMAIN Farms(p) : f \in exp),
        C11_create_autoclose_only_expired |-> G(good, /\ DOMAIN Farms(p) = (DOMAIN Farms(s) \ exp) \cup {nid}
                                                      /\ \A f \in DOMAIN Farms(s) \ exp : Farms(p)[f] = Farms(s)[f]),
        C11_create_accepts_exact |-> G(acceptable, e.ok),
